@@ -447,16 +447,53 @@ impl Drop for DtlsTransport {
     }
 }
 
+/// The records of the last flight, ready to be sent again. A retransmission is a new
+/// record: the plaintext (epoch 0) records get fresh record sequence numbers (RFC 6347
+/// §4.1: sequence numbers are not reused within an epoch). A peer with an anti-replay
+/// window (§4.1.2.6) otherwise discards the retransmission of every record it has already
+/// seen - which is exactly the case where the retransmission is needed to make the peer
+/// answer again (a lost HelloVerifyRequest, a lost final flight). The protected Finished
+/// is resent as is: a peer that has not seen it accepts it, one that has does not need it.
+fn next_retransmission(ctx: &mut HandshakeContext) -> Option<Vec<Vec<u8>>> {
+    let epoch = ctx.epoch;
+    let records = ctx.last_flight_records.as_mut()?;
+    let is_plain = |r: &Vec<u8>| r.len() >= DtlsRecord::HEADER_SIZE && r[3] == 0 && r[4] == 0;
+    let mut next = if epoch == 0 {
+        // still writing epoch 0: take from (and advance) the live counter
+        ctx.sequence_number
+    } else {
+        // epoch 0 is closed; its last record, the ChangeCipherSpec, is part of this flight
+        let used = records
+            .iter()
+            .filter(|r| is_plain(r))
+            .map(|r| u64::from_be_bytes([0, 0, r[5], r[6], r[7], r[8], r[9], r[10]]) + 1)
+            .max()
+            .unwrap_or(0);
+        ctx.retransmit_epoch0_seq.max(used)
+    };
+    for r in records.iter_mut().filter(|r| is_plain(r)) {
+        r[5..11].copy_from_slice(&next.to_be_bytes()[2..8]);
+        next += 1;
+    }
+    if epoch == 0 {
+        ctx.sequence_number = next;
+    } else {
+        ctx.retransmit_epoch0_seq = next;
+    }
+    Some(records.clone())
+}
+
 impl DtlsInner {
-    async fn handle_retransmit(&self, ctx: &HandshakeContext, _is_client: bool) {
+    async fn handle_retransmit(&self, ctx: &mut HandshakeContext, _is_client: bool) {
         if *self.state.lock() != DtlsState::Handshaking {
             return;
         }
+        let retransmission = next_retransmission(ctx);
         #[cfg(rustrtc_verif)]
-        if let Some(records) = &ctx.last_flight_records {
+        if let Some(records) = &retransmission {
             self.vflight(records, true, "timer");
         }
-        if let Some(records) = &ctx.last_flight_records
+        if let Some(records) = &retransmission
             && let Err(e) = self.conn.send_dtls_record_batch(records).await
         {
             let msg = format!("{:?}", e);
@@ -748,7 +785,7 @@ impl DtlsInner {
                             else if msg.msg_type == HandshakeType::Finished
                                 && !is_client
                                 && matches!(*self.state.lock(), DtlsState::Connected(..))
-                                && let Some(records) = &ctx.last_flight_records
+                                && let Some(records) = &next_retransmission(ctx)
                             {
                                 #[cfg(rustrtc_verif)]
                                 self.vflight(records, true, "dupFIN");
@@ -983,11 +1020,12 @@ impl DtlsInner {
         }
 
         if ctx.server_random.is_some() {
+            let retransmission = next_retransmission(ctx);
             #[cfg(rustrtc_verif)]
-            if let Some(records) = &ctx.last_flight_records {
+            if let Some(records) = &retransmission {
                 self.vflight(records, true, "dupCH");
             }
-            if let Some(records) = &ctx.last_flight_records
+            if let Some(records) = &retransmission
                 && let Err(e) = self.conn.send_dtls_record_batch(records).await
             {
                 if let Some(io_err) = e.downcast_ref::<std::io::Error>() {
@@ -2032,7 +2070,7 @@ impl DtlsInner {
                     ));
                 }
                 _ = retransmit_interval.tick() => {
-                    self.handle_retransmit(&ctx, is_client).await;
+                    self.handle_retransmit(&mut ctx, is_client).await;
                     #[cfg(rustrtc_verif)]
                     self.vsnap(&ctx, "tick");
                 }
@@ -2382,6 +2420,9 @@ struct HandshakeContext {
     /// implementations (e.g. webrtc-dtls) continue from the HVR seq + 1.
     post_hvr: bool,
     last_flight_records: Option<Vec<Vec<u8>>>,
+    /// Next unused epoch-0 record sequence number for retransmissions made after the
+    /// write epoch has moved on.
+    retransmit_epoch0_seq: u64,
     incomplete_handshake: BytesMut,
     /// Byte ranges of `incomplete_handshake` filled by the fragments received so far.
     incomplete_ranges: Vec<(usize, usize)>,
@@ -2416,6 +2457,7 @@ impl HandshakeContext {
             recv_message_seq: 0,
             post_hvr: false,
             last_flight_records: None,
+            retransmit_epoch0_seq: 0,
             incomplete_handshake: BytesMut::new(),
             incomplete_ranges: Vec::new(),
             incomplete_msg_seq: 0,
